@@ -17,7 +17,7 @@ def split_line(l):
     parts = l.split(" ")
     out, kv = [], {}
     for p in parts:
-        if "=" in p and p.split("=", 1)[0] in ("acts", "crash", "rec", "ploss", "plossn"):
+        if "=" in p and p.split("=", 1)[0] in ("acts", "crash", "rec", "ploss", "plossn", "plossv", "views"):
             k, v = p.split("=", 1)
             kv[k] = v
         else:
@@ -44,6 +44,13 @@ def compare(impl, model):
             j, o = item.split(":", 1)
             j = int(j)
             if j >= len(rec) or rec[j] != o:
+                return False
+    # power loss: the referenced view (MANIFEST + listed segments + pointed snapshot) of every directory a power failure can
+    # leave inside this op must be the view of some action prefix of the model (the hypothesis of C01_power_loss_point)
+    if ka.get("plossv", "-") not in ("-", "") and "views" in kb:
+        mv = set(kb["views"].split("#"))
+        for v in ka["plossv"].split("#"):
+            if v not in mv:
                 return False
     return True
 
